@@ -62,6 +62,8 @@ Laws ==
                             \* NaT absorbs EVERY duration, also one with a calendar part
                             /\ TAdd(NAT, c.a) = NAT /\ TSub(NAT, c.a) = NAT
     /\ c.kind = "nat"    => TAdd(NAT, c.a) = NAT /\ TSub(NAT, c.a) = NAT /\ DAdd(NAT, c.a) = NAT /\ DAdd(c.a, NAT) = NAT
+                            \* ... and every scaling factor, zero included (0 * NaT is not the empty duration)
+                            /\ \A k \in {N(2), N(1), 0, 1, 3} : DScale(NAT, k) = NAT
     /\ c.kind = "trunc"  => /\ \A q \in {1, 15, 60, 3600, 21600, 86400} : TruncIsGreatestMultiple(c.t, q)
                             /\ \A dm \in {1, 2, 3, 4, 6, 12} : MonthTruncIsPeriodStart(c.t, dm)
     /\ c.kind = "tod"    => HmsRoundTrip(c.h, c.mi, c.s, c.sub)
@@ -77,7 +79,7 @@ EmitTime ==
                                  civil |-> CivilFromDays(AddMonths(c.t, c.m)[1])]
         [] c.kind = "group"  -> [op |-> "group", a |-> c.a, b |-> c.b, k |-> c.k,
                                  sum |-> DAdd(c.a, c.b), dif |-> DSub(c.a, c.b), neg |-> DNeg(c.a), scaled |-> DScale(c.a, c.k)]
-        [] c.kind = "nat"    -> [op |-> "nat", a |-> c.a]
+        [] c.kind = "nat"    -> [op |-> "nat", a |-> c.a, factors |-> <<N(2), N(1), 0, 1, 3>>]
         [] c.kind = "trunc"  -> [op |-> "trunc", t |-> c.t,
                                  secs |-> [q \in {1, 15, 60, 3600, 21600, 86400} |-> TruncSecs(c.t, q)],
                                  days |-> [k \in {2, 7} |-> TruncDays(c.t, k)],
